@@ -300,6 +300,10 @@ impl Report {
                 unlisted.push((sig, what, replay));
             }
         }
+        // a run that cannot show a single case it explored is not evidence
+        if self.samples.is_empty() && self.evaluations > 0 {
+            self.inconclusive("harness: the monitor recorded no sample case");
+        }
         // evidence
         let mut cov = Map::new();
         cov.insert("evaluations".into(), json!(self.evaluations));
